@@ -4,7 +4,7 @@
    alg_distance.go, line.go, alg_point_in_ring.go over Q); reference semantics: Base/Planar.v (inG). *)
 From Coq Require Import QArith List Bool.
 From SF Require Import Base.GeomAST Base.QKernel Base.Planar Model.Intersects Model.Distance
-  Proofs.Intersects_proofs Proofs.Distance_proofs Proofs.Distance_lower Proofs.Intersects_areal.
+  Proofs.Intersects_proofs Proofs.Distance_proofs Proofs.Distance_lower Proofs.Intersects_areal Proofs.Intersects_polypoly Proofs.Distance_full.
 Import ListNotations.
 Open Scope Q_scope.
 
@@ -19,19 +19,34 @@ Theorem intersects_sound : forall a b : geom,
 Proof. exact intersects_sound. Qed.
 Print Assumptions intersects_sound.
 
-(* `false` means no common point.  Proved (a) for operands without areal parts whose line strings
-   have two distinct vertices (this theorem), and (b) below (intersects_complete_lower_partial)
-   whenever the common point lies on a puntal or lineal member of one operand, the other operand
-   being arbitrary (polygons, multipolygons, collections).  NOT proved: both members areal
-   (polygon against polygon; needs: boundaries disjoint -> nested or disjoint, i.e. a polygonal
-   Jordan argument); covered by the correspondence against the witness oracle, which is itself
-   verified (oracle_intersects_exact).  The full statement would be
-     intersects_complete : operand_ok a -> operand_ok b -> inG a p -> inG b p -> intersects a b = true *)
-Theorem intersects_complete_lineal_partial : forall (a b : geom) (p : pt),
-  no_polys a = true -> no_polys b = true -> lines_wf a = true -> lines_wf b = true ->
-  inG a p = true -> inG b p = true -> intersects a b = true.
-Proof. exact intersects_complete_lineal. Qed.
-Print Assumptions intersects_complete_lineal_partial.
+(* `false` means no common point: EVERY pair of operands (points, line strings, polygons with holes,
+   their multis, nested collections).  operand_ok asks what OGC validity gives: line strings with
+   two distinct vertices, rings closed with two distinct vertices, rings properly nested (holes in
+   the closed shell, shell and holes not entering a hole); it is decidable (operand_okb below).
+   For two polygons whose boundaries do not meet the proof shows that a common point forces the
+   start vertex of one shell into the other polygon - the two probes of the Go code - from:
+   parity constancy along ring-avoiding segments, the leftmost hit of a horizontal segment with
+   finitely many edges, and three facts about closed rings with disjoint boundaries (no mutual
+   containment, containment is transitive, mutually exterior rings have disjoint interiors). *)
+Theorem intersects_complete : forall (a b : geom) (p : pt),
+  operand_ok a -> operand_ok b -> inG a p = true -> inG b p = true -> intersects a b = true.
+Proof. exact intersects_complete. Qed.
+Print Assumptions intersects_complete.
+
+(* together with soundness: Intersects on the model is exactly "the point sets share a point", and
+   it equals the verified witness oracle *)
+Theorem intersects_exact : forall a b : geom,
+  operand_ok a -> operand_ok b ->
+  (intersects a b = true <-> exists p, inG a p = true /\ inG b p = true) /\
+  intersects a b = share_witness a b.
+Proof. exact intersects_exact. Qed.
+Print Assumptions intersects_exact.
+
+(* the hypotheses are decidable: the nesting conditions, which quantify over all points, need only
+   be tested at the witnesses of the polygon's own arrangement (slab-witness sufficiency) *)
+Theorem operand_ok_decidable : forall g : geom, operand_okb g = true -> operand_ok g.
+Proof. exact operand_okb_sound. Qed.
+Print Assumptions operand_ok_decidable.
 
 Theorem intersects_sym : forall a b : geom, intersects a b = intersects b a.
 Proof. exact intersects_sym. Qed.
@@ -63,26 +78,6 @@ Theorem ring_parity_constant_off_ring : forall (ring : list pt) (u v : pt),
   edges_parity (segs_of_pts ring) u = edges_parity (segs_of_pts ring) v.
 Proof. exact path_parity. Qed.
 Print Assumptions ring_parity_constant_off_ring.
-
-(* completeness with an areal operand: the common point lies on a point or line string of one
-   operand (in_lower), the other operand is arbitrary.  operand_ok asks what OGC validity gives:
-   line strings with two distinct vertices, rings closed with two distinct vertices, holes inside
-   the closed shell, shell and holes not entering a hole (poly_nest_ok) *)
-Theorem intersects_complete_lower_partial : forall (a b : geom) (p : pt),
-  operand_ok a -> operand_ok b -> (in_lower a p = true \/ in_lower b p = true) ->
-  inG a p = true -> inG b p = true -> intersects a b = true.
-Proof. exact intersects_complete_lower. Qed.
-Print Assumptions intersects_complete_lower_partial.
-
-(* hence, when one operand has no areal part at all, the model of Intersects IS the exact oracle *)
-Theorem intersects_eq_oracle_one_sided : forall a b : geom,
-  operand_ok a -> operand_ok b -> (no_polys a = true \/ no_polys b = true) ->
-  intersects a b = share_witness a b /\
-  ((exists d, dist2 a b = Some d /\ d == 0) <-> intersects a b = true).
-Proof.
-  intros a b Oa Ob H. split; [apply intersects_eq_oracle_one_sided | apply distance_zero_iff_intersects_one_sided]; assumption.
-Qed.
-Print Assumptions intersects_eq_oracle_one_sided.
 
 (* ---- distance kernels ---- *)
 
@@ -164,12 +159,11 @@ Theorem distance_undefined_iff : forall a b : geom,
 Proof. intros a b. split; [apply dist2_none_iff | apply distance_undefined_of_empty]. Qed.
 Print Assumptions distance_undefined_iff.
 
-(* zero exactly when intersecting (operands without areal parts: by completeness of Intersects);
-   for all operands: intersecting gives zero, and a zero distance has a common point as witness *)
+(* zero exactly when intersecting: every pair of operands *)
 Theorem distance_zero_iff_intersects : forall a b : geom,
-  no_polys a = true -> no_polys b = true -> lines_wf a = true -> lines_wf b = true ->
+  operand_ok a -> operand_ok b ->
   ((exists d, dist2 a b = Some d /\ d == 0) <-> intersects a b = true).
-Proof. exact distance_zero_iff_intersects. Qed.
+Proof. exact distance_zero_iff_intersects_all. Qed.
 Print Assumptions distance_zero_iff_intersects.
 
 Theorem distance_zero_witness : forall (a b : geom) (d : Q),
@@ -184,19 +178,15 @@ Qed.
 Print Assumptions distance_zero_witness.
 
 (* "equals the minimum Euclidean distance between the two point sets", on the model (squared):
-   attained by two points of the operands and a lower bound for every pair of points.
-   Proved for operands without areal parts.  The full statement (any operands with closed rings
-   and valid polygons) needs completeness of Intersects for areal operands and is covered by the
-   correspondence against dist2_ref:
-     distance_is_min : dist2 a b = Some d -> (exists p q, inG a p /\ inG b q /\ d == d2_xy p q) /\
-                       (forall p q, inG a p -> inG b q -> d <= d2_xy p q) *)
-Theorem distance_is_min_lineal_partial : forall (a b : geom) (d : Q),
-  no_polys a = true -> no_polys b = true -> lines_wf a = true -> lines_wf b = true ->
-  dist2 a b = Some d ->
+   attained by two points of the operands and a lower bound for every pair of points; every pair
+   of operands, areal ones included (an interior point of a polygon is joined to the other operand
+   by a segment that must reach a ring at a closer point, else the operands would intersect) *)
+Theorem distance_is_min : forall (a b : geom) (d : Q),
+  operand_ok a -> operand_ok b -> dist2 a b = Some d ->
   (exists p q, inG a p = true /\ inG b q = true /\ d == d2_xy p q) /\
   (forall p q, inG a p = true -> inG b q = true -> d <= d2_xy p q).
-Proof. exact distance_is_min_lineal. Qed.
-Print Assumptions distance_is_min_lineal_partial.
+Proof. exact distance_is_min. Qed.
+Print Assumptions distance_is_min.
 
 (* the final panic of the Intersects switch is unreachable *)
 Theorem intersects_never_panics : forall a b : geom, intersects_panics a b = false.
@@ -231,16 +221,15 @@ Example ex_pruned :
   /\ full_search (fun r : Q * Q => snd r) [(0, 4); (1, 2); (3, 9); (5, 6)] None = Some 2.
 Proof. vm_compute. auto. Qed.
 
-(* operand_ok is satisfiable by an areal operand; a line inside the polygon, boundaries apart:
-   the answer comes from the StartPoint probe *)
-Definition ex_lshape : geom :=
-  GPoly (MkPoly XY [MkLine XY [qv 0 0; qv 6 0; qv 6 2; qv 2 2; qv 2 6; qv 0 6; qv 0 0]]).
-Definition ex_inner : geom := GMLine XY [MkLine XY [qv 1 1; qv 1 5]; MkLine XY []].
-Example ex_operand_ok : operand_ok ex_lshape /\ operand_ok ex_inner /\ no_polys ex_inner = true /\
-  in_lower ex_inner (1, 3) = true /\ inG ex_lshape (1, 3) = true /\ intersects ex_lshape ex_inner = true /\
-  share_witness ex_lshape ex_inner = true.
-Proof.
-  unfold operand_ok, polys_nest_ok, poly_nest_ok. repeat split; try (vm_compute; reflexivity).
-  - intros y [<-|[]]. cbn. repeat split; intros; contradiction.
-  - intros y [].
-Qed.
+(* operand_ok holds of a polygon with a hole (decided by operand_okb); two polygons whose
+   boundaries do not meet, one inside the other: the answer comes from a start-vertex probe; and a
+   polygon inside the hole of the other: disjoint *)
+Definition ex_small : geom := GPoly (MkPoly XY [MkLine XY [qv 3 3; qv 3 7 ; qv 35 10; qv 3 3]]).
+Definition ex_big : geom :=
+  GPoly (MkPoly XY [MkLine XY [qv 0 0; qv 40 0; qv 40 40; qv 0 40; qv 0 0];
+                    MkLine XY [qv 10 20; qv 10 30; qv 20 30; qv 20 20; qv 10 20]]).
+Definition ex_in_hole : geom := GPoly (MkPoly XY [MkLine XY [qv 12 22; qv 18 22; qv 15 28; qv 12 22]]).
+Example ex_operand_ok : operand_okb ex_big = true /\ operand_okb ex_small = true /\ operand_okb ex_in_hole = true /\
+  intersects ex_big ex_small = true /\ share_witness ex_big ex_small = true /\
+  intersects ex_big ex_in_hole = false /\ share_witness ex_big ex_in_hole = false.
+Proof. vm_compute. repeat split; reflexivity. Qed.
